@@ -215,7 +215,7 @@ CC = "self._current_cycle"
 SELF_RUN_FIELDS = ["_population", "_best_agent", "_worst_agent", "_current_cycle", "_errors", "_error_diffs", "_mode", "_workers", "_task"]
 
 contract(A + "optimize", params=dict(task="Task", mode="opt[str]", workers="opt[int]"), returns="OptimizationResult",
-         cases=OBJ_CASES, locals=dict(evolution="list[Population]"),
+         cases=OBJ_CASES, locals=dict(evolution="list[Population]"), hints=["eager-inst"],
          requires=[
              "(task.objective_weights is None) == scalar_case()",                       # ValidTask (see _init_agent)
              "implies(task.seed is not None, 0 <= task.seed < 4294967296)",             # the documented numpy seed range
@@ -233,6 +233,8 @@ contract(A + "optimize", params=dict(task="Task", mode="opt[str]", workers="opt[
          ] + [("book-" + str(i), b) for i, b in enumerate(book("(" + CC + " - 1)"))] + [
              ("no-earlier-stop", "all(not Stop(self, k, self._errors) for k in range(1, " + CC + "))"),
              ("within-budget", CC + " <= self._config.max_cycles"),
+             ("rates-are-abs-1-minus-mean-fitness",
+              "all(self._errors[k - 1] == abs(1 - mean([a.fitness for a in evolution[k].agents])) for k in range(1, " + CC + "))"),
              ("history-ok", "all(" + GEN_OK.format(g="evolution[g]") + " for g in range(" + CC + "))"),
              ("history-owns-its-lists", "all(" + GEN_OWN.format(g="evolution[g]") + " for g in range(" + CC + "))"),
              ("evolution-is-local", "evolution is not self._errors and evolution is not self._error_diffs"),
@@ -247,6 +249,8 @@ contract(A + "optimize", params=dict(task="Task", mode="opt[str]", workers="opt[
                                                    " 1 <= len(result.rates) <= self._config.max_cycles"),
              ("stops-when-a-criterion-holds", "Stop(self, len(result.rates), result.rates)"),
              ("never-earlier", "all(not Stop(self, k, result.rates) for k in range(1, len(result.rates)))"),
+             ("rates", "all(result.rates[k - 1] == abs(1 - mean([a.fitness for a in result.evolution[k].agents]))"
+                       " for k in range(1, len(result.rates) + 1))"),
              # rates[k-1] = |1 - mean fitness of generation k|: carried by __error_check__ (rate of the live population of
              # cycle k) and Population.__init__ (the snapshot keeps every fitness); the link for *later* cycles rests on
              # the immutability of recorded generations (history-ok) and is monitored at run time (BND), not re-proved here.
